@@ -225,3 +225,90 @@ func storeAccesses1(f *ssa.Function) []storeAccess {
 	}
 	return out
 }
+
+// applyFuncs: the functions that install poll results: those containing a
+// post-construction store to cachedSecret.Secret (found by effect, so a
+// refactoring that renames or splits applyUpdates is followed).
+func applyFuncs(c *eng.Ctx) []*ssa.Function {
+	p := c.P
+	l := moduleLocks(c)
+	seen := map[*ssa.Function]bool{}
+	var out []*ssa.Function
+	for _, a := range storeAccesses(p) {
+		if a.What != "cachedSecret.Secret" || !a.Write || a.Kind != "store" {
+			continue
+		}
+		st := l.HeldBefore(a.In)
+		if l.Holds(st, keyStore) && !l.HoldsReal(st, keyStore) {
+			continue
+		}
+		if !seen[a.Fn] {
+			seen[a.Fn] = true
+			out = append(out, a.Fn)
+		}
+	}
+	return out
+}
+
+// removalGuardedByHandle: the delete of active.m[key] at a is edge-dominated
+// by the not-present edge of a comma-ok lookup of the same key in active.f,
+// with no unlock in between.
+func removalGuardedByHandle(a storeAccess) bool {
+	for _, cond := range eng.FactsAt(a.In) {
+		src, truth, isCO := cond.CommaOk()
+		if !isCO || truth {
+			continue
+		}
+		lk, isLk := src.(*ssa.Lookup)
+		if !isLk {
+			continue
+		}
+		if n, isAct := activeMapOf(lk.X); isAct && n == "f" && eng.Same(lk.Index, a.Map.Key) {
+			hit, _ := eng.Search(a.Fn, lk, nil, func(x ssa.Instruction) bool { return x == a.In }, func(x ssa.Instruction) bool {
+				if call, isC := x.(*ssa.Call); isC {
+					op, k, isL := eng.LockOp(&call.Call)
+					return isL && k == keyStore && op == "Unlock"
+				}
+				return false
+			})
+			if hit == nil {
+				return true
+			}
+		}
+	}
+	return false
+}
+
+// checkPrepubRemovals: while the store is being constructed, entries of the
+// active set are only discarded wholesale (clear) when the cache was rejected
+// (decode error or invalid); nothing is expired or dropped at load time.
+func checkPrepubRemovals(c *eng.Ctx, rule string) {
+	p := c.P
+	l := moduleLocks(c)
+	for _, a := range storeAccesses(p) {
+		if a.Map == nil || a.What != "active.m" || !(a.Map.Kind == "delete" || a.Map.Kind == "clear") {
+			continue
+		}
+		st := l.HeldBefore(a.In)
+		if !(l.Holds(st, keyStore) && !l.HoldsReal(st, keyStore)) {
+			continue
+		}
+		okReset := a.Map.Kind == "clear"
+		if okReset {
+			okReset = false
+			for _, cond := range eng.FactsAt(a.In) {
+				if v, isNil, isE := cond.ErrCheck(); isE && !isNil {
+					if call, _ := eng.TupleCall(v); call != nil && eng.CalleeIs(&call.Call, "encoding/json", "Unmarshal") {
+						okReset = true
+					}
+				}
+				if call, _, truth, isCall := cond.BoolCall(); isCall && !truth {
+					if cal := eng.Callee(&call.Call); cal != nil && cal.Name() == "isActiveSetValid" {
+						okReset = true
+					}
+				}
+			}
+		}
+		c.Check(okReset, rule, a.Fn, a.In.Pos(), "removal before publication: "+eng.InstrStr(a.In), "while the store is being constructed entries are only discarded wholesale when the cache was rejected (decode error or invalid); a valid cache entry is used, nothing is expired at load time", "holding: "+eng.FactsString(a.In))
+	}
+}
